@@ -16,7 +16,7 @@ from . import tlc
 ROOT = os.path.dirname(os.path.dirname(os.path.abspath(__file__)))
 # runs against a scratch copy of the repository (mutant self-tests) must not overwrite committed evidence
 EVIDENCE_DIR = os.path.join(ROOT, "evidence") if not ("XGCM_SRC" in os.environ or "XGCM_SEEDED_RUN" in os.environ) else os.path.join(
-    tempfile.gettempdir(), "verif_mutant_evidence")
+    tempfile.gettempdir(), f"verif_scratch_evidence_{os.getpid()}")
 REPLAY_DIR = os.path.join(EVIDENCE_DIR, "replays")
 KNOWN = os.path.join(ROOT, "known_findings.json")
 PY = "/venv/bin/python"
